@@ -1,9 +1,9 @@
 (** C05 — output pools are transparent: reuse never changes results or re-simulates.
     Model: Store/Pool.v (OutputPool get_batch/add_batch/remove_store, ComputationContext validation,
     one inference run over a persistent pool through the PoolLoader and the executor of Graph/Net.v).
-    Proofs: Proofs/C05_Pool.v (with C03's executor theorems). *)
+    Proofs: Proofs/C05_Pool.v, Proofs/C05_Cache.v (with C03's executor and C02's cache theorems). *)
 From Coq Require Import List String ZArith Arith Bool.
-From Elfi Require Import Graph.Net Store.Pool Proofs.C03_Exec Proofs.C05_Pool.
+From Elfi Require Import Graph.Net Store.Pool Proofs.C03_Exec Proofs.C02_Order Proofs.C05_Pool Proofs.C05_Cache.
 Import ListNotations.
 
 (** If the values supplied for some nodes are the values a fresh computation gives them, then every
@@ -66,6 +66,53 @@ Theorem C05_context_refusal :
                   ((exists b, bs = Some b /\ b <> pb) \/ (exists s, seed = Some s /\ s <> ps)).
 Proof. exact make_context_refuses. Qed.
 Print Assumptions C05_context_refusal.
+
+(** Along a whole inference run over a pool - any batch indices, the pool filling up and the shared
+    output set growing as the PoolLoader adds the stored nodes the pool lacks - every batch returns
+    the outputs and the call log that a fresh executor cache gives, and the pool ends up the same:
+    the order cache shared by all batches of a run never changes what a pool run computes. *)
+Theorem C05_pool_run_executor_cache_transparent :
+  forall g pl idxs,
+    wf_base g -> NoDup (map fst (stores pl)) ->
+    visible (run_batches {| rs_net := g; rs_pool := pl; rs_cache := empty_cache |} idxs)
+    = visible (run_batches_fresh {| rs_net := g; rs_pool := pl; rs_cache := empty_cache |} idxs).
+Proof. exact pool_run_from_start. Qed.
+Print Assumptions C05_pool_run_executor_cache_transparent.
+
+(** The loaded nets of one handler (same compiled net, any two pool batches over the same stores, any
+    two output sets) are coherent in the sense C02's history theorem asks for. *)
+Theorem C05_loaded_nets_coherent :
+  forall g0 outs outs' p p',
+    wf_base g0 -> map fst p = map fst p' -> NoDup (map fst p) ->
+    coherent (loaded g0 outs p) (loaded g0 outs' p').
+Proof. exact loaded_coherent. Qed.
+Print Assumptions C05_loaded_nets_coherent.
+
+(** Non-vacuity of the two theorems above: the compiled MA2-like net meets wf_base, and with a pool
+    over the simulator and the summary, three batches run (the second and third through the order
+    cache filled by the first, batch 0 twice) and agree with the fresh-cache run. *)
+Definition c5_st (n : name) (o : option value) (op st ob uo ub : bool) : sstate :=
+  {| s_output := o; s_has_op := op; s_stochastic := st; s_observable := ob; s_uses_observed := uo;
+     s_uses_batch_size := ub; s_uses_meta := false; s_parameter := false; s_opid := n |}.
+Definition c5_src : snet :=
+  {| s_nodes := [("t"%string, c5_st "t"%string None true true false false true);
+                 ("y"%string, c5_st "y"%string None true true true false true);
+                 ("s"%string, c5_st "s"%string None true false true false false);
+                 ("d"%string, c5_st "d"%string None true false false true false)];
+     s_edges := [("t"%string, "y"%string, PInt 0); ("y"%string, "s"%string, PInt 0); ("s"%string, "d"%string, PInt 0)];
+     s_observed := [("y"%string, VConst 7)] |}.
+Example C05_cache_example :
+  match compile c5_src ["d"%string] with
+  | Ok g =>
+      let pl := {| stores := [("y"%string, None); ("s"%string, None)]; pl_batch_size := None; pl_seed := None |} in
+      wf_base_b g = true
+      /\ match run_batches {| rs_net := g; rs_pool := pl; rs_cache := empty_cache |} [0; 1; 0]%nat with
+         | Ok (s, obs) => List.length obs = 3%nat /\ List.length (ec_orders (rs_cache s)) = 2%nat
+         | Err _ => False
+         end
+  | Err _ => False
+  end.
+Proof. vm_compute. repeat split. Qed.
 
 (** Non-vacuity: the MA2-like store sets ("the simulator and/or what is computed from it", with the
     priors before them in the order) are prefix closed; storing only the first of two independent
